@@ -226,6 +226,17 @@ func (d *chainDesc) forge() []*x509.Certificate {
 		r := pki.Issue(pki.RootTmpl("stray self-signed"), pki.K("p256-g"), nil, nil)
 		i := d.structArg
 		xs = append(append(append([]*x509.Certificate{}, xs[:i]...), r.X), xs[i:]...)
+	case "insert-reissued-root-below-root", "append-reissued-root":
+		// a second, different self-signed certificate with the root's subject and key (a renewed root)
+		rt := d.tm[d.n-1]
+		rt.Serial = big.NewInt(987654321)
+		rt.NotAfter = rt.NotAfter.Add(24 * time.Hour)
+		re := pki.Issue(rt, pki.K(d.keys[d.n-1]), nil, nil)
+		if d.structural == "append-reissued-root" {
+			xs = append(xs, re.X)
+		} else {
+			xs = append(append(append([]*x509.Certificate{}, xs[:len(xs)-1]...), re.X), xs[len(xs)-1])
+		}
 	case "selfsigned-leaf-in-chain":
 		l := pki.Issue(d.tm[0], pki.K(d.keys[0]), nil, nil)
 		xs[0] = l.X
@@ -266,6 +277,10 @@ func chainMods(n int, p purposeKind) (viol []chainMod, benign []chainMod) {
 		for i := 1; i < n; i++ {
 			v(fmt.Sprintf("insert-selfsigned-intermediate@%d", i), -1, st("insert-selfsigned-intermediate", i))
 		}
+	}
+	if n >= 2 {
+		v("insert-reissued-root-below-root", -1, st("insert-reissued-root-below-root", 0))
+		v("append-reissued-root", -1, st("append-reissued-root", 0))
 	}
 	v("append-unrelated-root", -1, st("append-unrelated-root", 0))
 	v("append-root-copy", -1, st("append-root-copy", 0))
